@@ -264,3 +264,17 @@ Definition go_unreadbyte (s : go_stream) : go_stream :=
   | Some b => Stream (b :: st_rest s) (st_term s) None
   | None => s
   end.
+
+(* ---- a *bufio.Scanner (ScanLines) as a value ---------------------------------------------
+   The current token, the tokens still to come, the error Err() reports once Scan has
+   returned false (0: the input simply ended), and whether Scan has returned false.  How the
+   input splits into tokens is Base.scan_tokens; here only the calls are given a meaning. *)
+Record go_scanner : Type := Scanner { sc_cur : list N; sc_toks : list (list N); sc_err : Z; sc_done : bool }.
+
+Definition go_scan (s : go_scanner) : bool * go_scanner :=
+  match sc_toks s with
+  | tk :: r => (true, Scanner tk r (sc_err s) (sc_done s))
+  | [] => (false, Scanner [] [] (sc_err s) true)
+  end.
+
+Definition go_scan_err (s : go_scanner) : Z := if sc_done s then sc_err s else 0%Z.
